@@ -282,7 +282,23 @@ class Flow:
 
     def ev_match(self, n, env, c):
         self.ifnodes[id(n)] = n
-        sv = self.ev(n["e"], env, "match")
+        # `match r { Ok(v) => v, Err(e) => return Err(e) }` is the long spelling of `r?`; an Err arm that only leaves
+        # the loop (`Err(_) => break`) or yields a default discards the error like `while let Ok` / `if let Ok`
+        mc = "match"
+        for arm in n.get("arms") or []:
+            p_ = arm.get("pat") or {}
+            while p_.get("k") == "pref":
+                p_ = p_.get("pat") or {}
+            if (p_.get("path") or "").endswith("::Err"):
+                b_ = arm.get("body")
+                rets = [x for x in ([b_] if isinstance(b_, dict) and b_.get("k") == "ret" else
+                                    [s for s in walk(b_)] if isinstance(b_, dict) else []) if x.get("k") == "ret"]
+                if rets and all(any(y.get("k") == "call" and y.get("ctor") and (y.get("f") or "").endswith("::Err")
+                                    for y in walk(r_.get("e"))) if r_.get("e") is not None else False for r_ in rets):
+                    mc = "try"
+                else:
+                    mc = "match:Ok"
+        sv = self.ev(n["e"], env, mc)
         r = AV()
         for i, arm in enumerate(n.get("arms") or []):
             self.bind(arm["pat"], sv, env)
